@@ -103,7 +103,11 @@ class _RecStateBase(IState):
                 self._vals[0] = float(v[0])
 
     def parse(self):
-        return np.array([float(self._count)] + list(self._vals))
+        own = [float(self._count)] + list(self._vals)
+        # like the library's default IState.parse, the observation includes every feature's value
+        for f in (self.features or []):
+            own += [float(x) for x in np.ravel(f())]
+        return np.array(own)
 
 
 RecState = type("RecState", (_RecStateBase,), _mk_callbacks("state", ALL_EVENT_CLASSES))
@@ -329,10 +333,13 @@ class EnvHandle(object):
 
     def histories(self):
         """Sizes and latest keys of the histories the state and its features keep."""
+        def latest(h):
+            keys = [k for k in h if k is not None]
+            return max(keys) if keys else None
         st = self.state
-        out = {"state": [len(st.history), max(st.history) if st.history else None]}
+        out = {"state": [len(st.history), latest(st.history)]}
         for f in (st.features or []):
-            out[f.name] = [len(f.history), max(f.history) if f.history else None]
+            out[f.name] = [len(f.history), latest(f.history)]
         return out
 
     def nlv_default(self):
